@@ -383,6 +383,15 @@ func TestC16Env(t *testing.T) {
 		esc("8 files, 1 thread, daemon (pipeline fills up)", asDaemon(confManyFiles()), nil),
 		{"8 files, 1 thread, daemon, every part damaged in transit once (every file fails validation once; one deviation less)", damageFirst(asDaemon(confManyFiles())), nil, d - 1},
 	}
+	// many small files (several per hash batch, more batches than the hand-over channel holds): a stop
+	// can arrive at every opening of a file, i.e. also while the scan is still hashing
+	small := asDaemon(confManyFiles())
+	small.Files = nil
+	for i := 0; i < 14; i++ {
+		small.Files = append(small.Files, rigFile{Name: fmt.Sprintf("g/s%02d", i), Data: strings.Repeat(string(rune('a'+i)), 10), Age: 300 - i})
+	}
+	small.OpenEvents = true
+	scs = append(scs, envScenario{"14 small files, 1 thread, daemon, a stop at every opening of a source file (one deviation)", small, nil, 1})
 	for i := range scs {
 		scs[i].conf.Horizon = 20 * time.Minute
 	}
@@ -407,7 +416,7 @@ func TestC16Env(t *testing.T) {
 			}
 			return out
 		}, c16Check,
-		"a graceful or an immediate stop at every externally visible action of the sender (partials request, scan, cache write, data / recovery / poll request, sent-log write, done-marking, delete), alone and after one request failure (request refused, receiver error on a part, a corrupted part -> validation failure, receiver unreachable for 60 s so that the pipeline's channels fill up); oracle: the sender exits (immediate: within 60 s, graceful: within the 20 min horizon, virtual time), a graceful stop leaves everything delivered and released, nothing confirmed is missing from the persisted queue cache; the one-shot run (stop right after start) completes")
+		"a graceful or an immediate stop at every externally visible action of the sender (partials request, scan, cache write, data / recovery / poll request, sent-log write, done-marking, delete; in one scenario also every opening of a source file, i.e. during hashing), alone and after one request failure (request refused, receiver error on a part, a corrupted part -> validation failure, receiver unreachable for 60 s so that the pipeline's channels fill up); oracle: the sender exits (immediate: within 60 s, graceful: within the 20 min horizon, virtual time), a graceful stop leaves everything delivered and released, nothing confirmed is missing from the persisted queue cache; the one-shot run (stop right after start) completes")
 }
 
 // ---------------------------------------------------------------- C07: sender crash
